@@ -120,17 +120,20 @@ def _ints(lo, hi):
 
 @st.composite
 def g_scenario(draw):
-    maxq = draw(st.sampled_from([0, 1, 1, 2]))
+    maxq = draw(st.sampled_from([0, 0, 1, 1, 2]))
     pname = draw(st.sampled_from(sorted(PROGRAMS)))
     waves = [0, 1] if 'go1' in PROGRAMS[pname] else [0]
     ncb = draw(_ints(1, 2))
     cbs = tuple((draw(st.sampled_from(['ok', 'ok', 'raise'])),
                  draw(st.sampled_from([0, 0, 1, 3]))) for _ in range(ncb))
     ns = draw(_ints(1, 3))
-    # slow = the sender transmits its requests slowly (virtual 10 s between
-    # the connection being accepted and the request being complete)
+    # third field = where the handler threads of this sender's requests are
+    # held up for a virtual 10 s (bit 1, "slow": before the request is
+    # complete - the sender transmits slowly; bit 2, "lag": right after the
+    # write that completed the response - the thread is descheduled while
+    # the sender already has its answer)
     senders = [(draw(st.sampled_from(waves)), draw(_ints(1, 3)),
-                draw(st.sampled_from([0, 0, 1])))
+                draw(st.sampled_from([0, 0, 0, 1, 2, 2, 3])))
                for _ in range(ns)]
     if len(waves) == 2 and all(sd[0] == 0 for sd in senders):
         senders[-1] = (1,) + senders[-1][1:]
@@ -138,8 +141,60 @@ def g_scenario(draw):
 
 
 def _sender(sd):
-    "(wave, n, slow) of a sender recipe; older recipes have no slow flag"
+    "(wave, n, hold) of a sender recipe; older recipes have no hold flags"
     return (sd[0], sd[1], sd[2] if len(sd) > 2 else 0)
+
+
+HOLD_RECV = 1       # handler waits for the rest of the request
+HOLD_SENT = 2       # handler is descheduled right after the response
+
+REQUEST = (
+    'POST / HTTP/1.1\r\n'
+    'Host: 127.0.0.1:%d\r\n'
+    'Content-Type: application/xml; charset=utf-8\r\n'
+    'Content-Length: %d\r\n'
+    'CIMExport: MethodRequest\r\n'
+    'CIMExportMethod: ExportIndication\r\n'
+    'Connection: close\r\n'
+    '\r\n')
+
+BODY = (
+    '<?xml version="1.0" encoding="utf-8" ?>\n'
+    '<CIM CIMVERSION="2.0" DTDVERSION="2.4">'
+    '<MESSAGE ID="%s" PROTOCOLVERSION="1.4">'
+    '<SIMPLEEXPREQ><EXPMETHODCALL NAME="ExportIndication">'
+    '<EXPPARAMVALUE NAME="NewIndication">%s</EXPPARAMVALUE>'
+    '</EXPMETHODCALL></SIMPLEEXPREQ></MESSAGE></CIM>')
+
+
+def export_request(ind, msgid):
+    "The bytes of the HTTP export request for one indication"
+    body = (BODY % (msgid, ind.tocimxml().toxml())).encode('utf-8')
+    return (REQUEST % (PORT, len(body))).encode('ascii') + body
+
+
+def read_response(req):
+    """
+    What the sender makes of the answer to its request: 'success' |
+    'refused' | ('error', exception that ended the handler before a complete
+    response) | ('badresp', text).
+    """
+    if not req.responded:
+        if req.error is not None:
+            return ('error', req.error)
+        return ('badresp', 'connection closed after %r' %
+                (req.response[:300],))
+    head, _, body = req.response.partition(b'\r\n\r\n')
+    status = head.split(b'\r\n')[0].split(b' ')
+    if len(status) < 2 or status[1] != b'200':
+        return ('badresp', 'HTTP response %r' % (head[:300],))
+    if b'<ERROR' in body:
+        if b'CODE="1"' in body and b'queue is full' in body:
+            return 'refused'
+        return ('badresp', 'CIM error response %r' % (body[:400],))
+    if b'<EXPMETHODRESPONSE' in body:
+        return 'success'
+    return ('badresp', 'response body %r' % (body[:400],))
 
 
 @st.composite
@@ -185,6 +240,9 @@ class Run:
         self.left = []
         self.listener = None
         self.stuck = ''
+        self.reqs = []        # (key, sched.Request) of accepted requests
+        self.overlap = 0      # requests begun while the handler thread of
+        #                       the same sender's previous request still ran
 
 
 def run_case(scenario, schedule, max_steps=4000):
@@ -225,33 +283,45 @@ def run_case(scenario, schedule, max_steps=4000):
     released = [False] * nwaves
     sender_states = []
 
-    def sender_fn(i, wave, n, slow):
-        def handle_factory(ind, msgid):
-            def handle(srv):
-                if slow:
-                    # the handler thread waits for the rest of the request
-                    s.block(lambda: False, 10.0, 'handler.recv')
-                try:
-                    # what ListenerRequestHandler.do_POST does after parsing
-                    srv.listener._handle_indication(  # noqa
-                        ind, '10.0.0.%d' % i, msgid)
-                except L.queue.Full:
-                    return 'refused'
-                except Exception as exc:  # transported to the oracle
-                    return ('error', exc)
-                return 'success'
-            return handle
+    def sender_fn(i, wave, n, hold):
+        peer = ('10.0.0.%d' % i, 50000 + i)
+
+        def handle(srv, req):
+            # runs in the handler thread the server started for the request
+            if hold & HOLD_RECV:
+                # the handler thread waits for the rest of the request
+                s.block(lambda: False, 10.0, 'handler.recv')
+            # the real ListenerRequestHandler: parse, do_POST, response
+            SC.run_handler(srv, req)
+
+        def prepare(req, j):
+            # the thread that handles an earlier request is held up longer
+            # (10 s, 5 s, 3.3 s): under the fair completion the handler
+            # threads of one sender's requests go on in reverse order
+            if hold & HOLD_SENT:
+                req.on_responded = lambda: s.block(
+                    lambda: False, 10.0 / (j + 1), 'handler.sent')
 
         def fn():
             s.block(lambda: released[wave], None, 'sender.wait-go')
+            prev = None
             for j in range(n):
                 key = 's%d.%d' % (i, j)
                 ind = CIMInstance('CIM_AlertIndication',
                                   properties={'Key': key})
+                data = export_request(ind, '%d' % (1000 + j))
                 run.sent.append(key)
-                kind, res = SC.client_request(
-                    s, net, PORT, handle_factory(ind, '%d' % (1000 + j)))
-                run.acks[key] = res if kind == 'handled' else 'noconn'
+                if prev is not None and prev.state != 'done':
+                    run.overlap += 1
+                kind, req = SC.client_request(
+                    s, net, PORT, handle, data, peer,
+                    lambda req, j=j: prepare(req, j))
+                if kind == 'handled':
+                    run.reqs.append((key, req))
+                    run.acks[key] = read_response(req)
+                    prev = req
+                else:
+                    run.acks[key] = 'noconn'
         return fn
 
     def post_state():
@@ -487,10 +557,15 @@ def judge(ctx, scenario, run, classes):
         tainted = True
 
     # ---- handler results ----
+    for key, req in run.reqs:
+        if req.error is not None:
+            # (socketserver prints the traceback and closes the connection)
+            ctx.fail_exc(req.error, 'handler-leak')
     for key in run.sent:
         res = run.acks.get(key)
-        if isinstance(res, tuple):
-            ctx.fail_exc(res[1], 'handler-leak')
+        if isinstance(res, tuple) and res[0] == 'badresp':
+            ctx.fail('handler:unexpected-response-to-export-request',
+                     '%s: %s' % (key, res[1]))
     if s.qstats['put_blocked']:
         ctx.fail('queue-full:handler-waits-instead-of-refusing',
                  'a handler thread blocked in put() on a full queue '
@@ -512,8 +587,21 @@ def classify(scenario, run):
                'outcome=' + str(run.outcome)]
     senders = [_sender(sd) for sd in senders]
     nind = sum(n for _, n, _ in senders)
-    if any(slow for _, _, slow in senders):
+    if any(hold & HOLD_RECV for _, _, hold in senders):
         classes.append('slow-sender')
+    if any(hold & HOLD_SENT for _, _, hold in senders):
+        classes.append('handler-held-up-after-response')
+    if run.overlap:
+        classes.append('next-request-while-own-previous-handler-still-runs')
+    serial = [i for i, (w, n, _) in enumerate(senders)
+              if sum(run.acks.get('s%d.%d' % (i, j)) == 'success'
+                     for j in range(n)) >= 2]
+    if serial:
+        classes.append('sender-with-2+-acknowledged')
+        if maxq == 0:
+            classes.append('sender-with-2+-acknowledged:unbounded-queue')
+        if run.overlap:
+            classes.append('sender-with-2+-acknowledged:handlers-overlap')
     if any(post['alive'].count('RequestHandler')
            for op, exc, post in run.calls if op == 'stop'):
         classes.append('handler-running-when-stop-returned')
@@ -536,6 +624,13 @@ def classify(scenario, run):
         classes.append('preempt:callback-thread-between-get-and-task_done')
     if pre_stop:
         classes.append('preempt:main-inside-stop')
+    # a handler thread has done one of (queue put, complete response) and
+    # another thread runs before it does the other / before it ends
+    pre_h = [p for p in s.preemptions if p[0].startswith('RequestHandler')]
+    if any(('has-put' in p[2]) != ('responded' in p[2]) for p in pre_h):
+        classes.append('preempt:handler-between-put-and-response')
+    if any('responded' in p[2] for p in pre_h):
+        classes.append('preempt:handler-after-response')
     if any(p[1] == 'q.empty:ret' and 'in-stop' in p[2]
            for p in s.preemptions):
         classes.append('preempt:stop-after-queue-seen-empty')
